@@ -673,3 +673,63 @@ func lemmaDecodePure(raw []byte) (inputUnchanged bool, repeatable bool) {
 	repeatable = (err == nil) == (err2 == nil) && (err != nil || reflect.DeepEqual(ps, qs))
 	return inputUnchanged, repeatable
 }
+
+// ---- RFC 3550 section 6.1 compound rules (C11), executable form ----
+
+// specCompoundOK: first packet SR or RR; then only RRs until an SDES; that SDES contains a CNAME item.
+func specCompoundOK(c CompoundPacket) bool {
+	if len(c) == 0 {
+		return false
+	}
+	switch c[0].(type) {
+	case *SenderReport, *ReceiverReport:
+	default:
+		return false
+	}
+	for _, p := range c[1:] {
+		switch v := p.(type) {
+		case *ReceiverReport:
+			continue
+		case *SourceDescription:
+			_, ok := specSDESFirstCNAME(v)
+			return ok
+		default:
+			return false
+		}
+	}
+	return false
+}
+
+func specSDESFirstCNAME(s *SourceDescription) (string, bool) {
+	for _, ch := range s.Chunks {
+		for _, it := range ch.Items {
+			if it.Type == SDESCNAME {
+				return it.Text, true
+			}
+		}
+	}
+	return "", false
+}
+
+// specCompoundCNAME: the text of the first CNAME item of the first SDES packet.
+func specCompoundCNAME(c CompoundPacket) string {
+	for _, p := range c {
+		if s, ok := p.(*SourceDescription); ok {
+			t, _ := specSDESFirstCNAME(s)
+			return t
+		}
+	}
+	return ""
+}
+
+// lemmaCompound (C11): Validate, CNAME, Marshal and Unmarshal agree with the executable grammar.
+func lemmaCompound(c CompoundPacket) (verr error, name string, cerr error, merr error, uerr error) {
+	verr = c.Validate()
+	name, cerr = c.CNAME()
+	out, merr := c.Marshal()
+	if merr == nil {
+		var d CompoundPacket
+		uerr = d.Unmarshal(out)
+	}
+	return verr, name, cerr, merr, uerr
+}
